@@ -38,7 +38,7 @@ pub mod packets {
         #[verifier::external_body]
         fn zvt_serialize(&self) -> (r: Vec<u8>) { unimplemented!() }
     }
-    //@ include $PACKETS
+    //@ include $PACKETS EXTRA_TLV=empty.tpl
 }
 /// the reply enum `io::Ack`: only 80 00 parses
 //@ item src:zvt/src/io.rs | enum Ack
